@@ -258,9 +258,83 @@ func judge(w *world, b *vlib.Batch) {
 	}
 
 	// ---- O1/O5 counts
-	delivered := func(gi, i int) bool {
-		k := gs[gi].keys[i]
-		return k != "" && stats[k].gotAtRet > 0
+	// Shape of the losses of the whole case, from the lines that were logged exactly
+	// once by their goroutine: "tail" = per goroutine the lost lines are a suffix of what
+	// it logged before Shutdown was called (everything before them arrived, nothing
+	// after them did) -- what is left in the buffer when the writer stops too early.
+	lostUnique, deliveredUnique, lostTail := 0, 0, true
+	firstLostCall := uint64(0)
+	for _, g := range gs {
+		seenLost := false
+		for i := range g.recs {
+			k := g.keys[i]
+			if k == "" || g.cls[i] != clMust {
+				continue
+			}
+			st := stats[k]
+			if st.owner != g.id || st.must+st.may+st.never != 1 || undecidedTexts[g.recs[i].Text] {
+				continue
+			}
+			if st.gotAtRet > 0 {
+				deliveredUnique++
+				if seenLost {
+					lostTail = false
+				}
+			} else {
+				lostUnique++
+				seenLost = true
+				if firstLostCall == 0 || g.recs[i].Call < firstLostCall {
+					firstLostCall = g.recs[i].Call
+				}
+			}
+		}
+	}
+	// ... and across goroutines: whatever was logged after the first lost line had
+	// returned sits behind it in the buffer and must be lost as well
+	if lostUnique > 0 && lostTail {
+		minLostRet := uint64(0)
+		for _, g := range gs {
+			for i := range g.recs {
+				if k := g.keys[i]; k != "" && g.cls[i] == clMust {
+					if st := stats[k]; st.owner == g.id && st.must+st.may+st.never == 1 && st.gotAtRet == 0 && !undecidedTexts[g.recs[i].Text] {
+						if minLostRet == 0 || g.recs[i].Ret < minLostRet {
+							minLostRet = g.recs[i].Ret
+						}
+					}
+				}
+			}
+		}
+		for _, g := range gs {
+			for i := range g.recs {
+				if k := g.keys[i]; k != "" && g.cls[i] == clMust && g.recs[i].Call > minLostRet {
+					if st := stats[k]; st.owner == g.id && st.must+st.may+st.never == 1 && st.gotAtRet > 0 {
+						lostTail = false
+					}
+				}
+			}
+		}
+	}
+	// how many must-loggings of each key lie behind the last once-logged line of
+	// their goroutine that did arrive (= could still have been queued at the end)
+	tailCap := map[string]int{}
+	for _, g := range gs {
+		last := -1
+		for i := range g.recs {
+			if k := g.keys[i]; k != "" && g.cls[i] == clMust {
+				if st := stats[k]; st.owner == g.id && st.must+st.may+st.never == 1 && st.gotAtRet > 0 {
+					last = i
+				}
+			}
+		}
+		for i := last + 1; i < len(g.recs); i++ {
+			if k := g.keys[i]; k != "" && g.cls[i] == clMust {
+				tailCap[k]++
+			}
+		}
+	}
+	lastEntrySeq := uint64(0)
+	if len(entries) > 0 {
+		lastEntrySeq = entries[len(entries)-1].Seq
 	}
 	dirtyOwner := map[int]bool{}
 	var keys []string
@@ -298,20 +372,30 @@ func judge(w *world, b *vlib.Batch) {
 		}
 		if st.gotAtRet < st.must {
 			dirtyOwner[st.owner] = true
-			where := "at-shutdown"
-			if st.got >= st.must {
-				where = "written-after-shutdown-returned"
-			} else {
-				// was anything this goroutine logged later delivered?
-				for j := ri + 1; j < len(gs[gi].recs); j++ {
-					if gs[gi].cls[j] == clMust && delivered(gi, j) {
-						where = "mid-run"
-						det["later_line_delivered"] = gs[gi].recs[j]
-						break
-					}
-				}
+			det["case_unique_lines_lost"] = lostUnique
+			det["case_unique_lines_delivered"] = deliveredUnique
+			det["case_losses_are_a_tail_per_goroutine"] = lostTail
+			det["case_first_lost_line_call_seq"] = firstLostCall
+			det["case_last_adapter_write_seq"] = lastEntrySeq
+			det["case_adapter_writes"] = len(entries)
+			det["lines_not_yet_written_when_shutdown_was_called"] = w.pendingAtShut
+			sig := "lost:mid-run:" + kindName
+			what := "the lines logged after it by the same goroutine did arrive"
+			switch {
+			case st.got >= st.must:
+				sig = "lost:written-after-shutdown-returned"
+				what = "it was written after Shutdown had returned"
+			case lostTail && st.must-st.gotAtRet <= tailCap[k]:
+				// one defect whatever kind of line sits at the end of the buffer
+				sig = "lost:at-shutdown"
+				what = fmt.Sprintf("the case lost %d once-logged lines, and all losses can be the last lines each goroutine logged before Shutdown (%d once-logged lines arrived, none of them after a lost one): the writer stopped with lines still queued", lostUnique, deliveredUnique)
+			case lostUnique == 0:
+				// only texts that were logged repeatedly are short: the merge accounting
+				sig = "lost:repeated-text:" + kindName
+				what = "no line that was logged only once is missing in this case, only repetitions are"
 			}
-			viol("lost:"+kindName+":"+where, fmt.Sprintf("%q from %s was logged %d times at an enabled level and returned before Shutdown was called, but the adapter had received it only %d times when Shutdown returned", text, siteName(site), st.must, st.gotAtRet), det)
+			viol(sig, fmt.Sprintf("%q from %s was logged %d times at an enabled level and returned before Shutdown was called, but the adapter had received it only %d times when Shutdown returned; %s",
+				text, siteName(site), st.must, st.gotAtRet, what), det)
 		}
 	}
 
@@ -407,6 +491,9 @@ func judge(w *world, b *vlib.Batch) {
 		// subsequence of the arrival sequence
 		p := 0
 		for i := range g.recs {
+			if dirtyOwner[-2] {
+				break // a shared text has a count violation: positions of its arrivals say nothing
+			}
 			if g.cls[i] != clMust || undecidedTexts[g.recs[i].Text] {
 				continue
 			}
@@ -533,7 +620,11 @@ func judge(w *world, b *vlib.Batch) {
 
 	// ---- coverage
 	a := w.ad
-	forcedTrig := sc.Sched && (w.firstTrigAtEnq.Load() < 0 || w.firstTrigAtEnq.Load() >= bufCap+3) && w.enqReturned.Load() >= bufCap+3
+	// Externally scheduled writer that was not triggered before more lines than the
+	// buffer (+ the two the writer can hold) had been queued by calls that returned
+	// before Shutdown was called: the writer can only have been moved by a producer
+	// that found the buffer full (forceEmptyingOfBuffer).
+	forcedTrig := sc.Sched && (w.firstTrigAtEnq.Load() < 0 || w.firstTrigAtEnq.Load() >= bufCap+3) && nMust >= bufCap+3
 	forced := forcedTrig || a.forcedCertain > 0
 	b.Eval(1)
 	b.Count("cases_"+sc.Build, 1)
@@ -604,7 +695,13 @@ func judge(w *world, b *vlib.Batch) {
 	b.Seen("families", sc.Family+"/"+sc.Build)
 	b.Seen("producer_counts", strconv.Itoa(sc.Producers))
 	if w.stuckAfterShut {
-		b.Inconclusive("case %d (%s): producers still blocked in a log call 30 s after Shutdown returned", sc.Case, sc.Family)
+		// the buffer was not empty when the writer stopped, so the few lines logged
+		// around Shutdown found no room: the losses above are the finding. Without a
+		// loss it is unexplained.
+		b.Count("cases_log_calls_blocked_after_shutdown", 1)
+		if b.NViolations() == 0 {
+			b.Inconclusive("case %d (%s): log calls still blocked 15 s after Shutdown returned, but no line is missing", sc.Case, sc.Family)
+		}
 	}
 	for _, n := range w.notes {
 		b.Note("case %d: %s", sc.Case, n)
